@@ -70,7 +70,7 @@ func makeURLKey(u *url.URL) string {
 		port = defaultP
 	}
 	// RFC 3986 §6.2.2.1: Host is lowercased.
-	hostPort := strings.ToLower(host)
+	hostPort := asciiLower(host)
 
 	// RFC 3986 §6.2.3: Only include port if it is non-default for the scheme.
 	if port != "" && port != defaultP {
